@@ -470,3 +470,5 @@ def r2_8(cx):
 
 
 RULES = [('R2.1', r2_1), ('R2.2', r2_2), ('R2.3', r2_3), ('R2.4', r2_4), ('R2.5', r2_5), ('R2.6', r2_6), ('R2.7', r2_7), ('R2.8', r2_8)]
+RULES.append(('R2.9', scan_rule(('hcobs::encoder::', 'hcobs::find_stuff_sequence', 'hcobs::Encoder'))))
+FLOORS['R2.9'] = 1
